@@ -127,6 +127,42 @@ def judge_sql(w, sql, dialect, schema, do_bind):
     return out, st
 
 
+LET_READER_LABELS = {}
+
+
+def corpus_shape(dl, src):
+    if src in LET_READER_LABELS:
+        return dl + " :: letreaders[" + LET_READER_LABELS[src] + "]"
+    return dl + " :: corpus[" + " ".join(t for t in ("join:", "append:", "group1(", "take ", "sort{", "window:") if re.search(r"\b" + re.escape(t.strip(":({ ")) + r"\b", src)) + "]:" + re.sub(r"\s+", " ", src)[:60]
+
+
+def let_reader_programs():
+    """One let-table (five forms) read by every ordered pair of reader kinds (append / remove / intersect by bare
+    name, join, a sub-pipeline that starts from it), from a main pipeline over a database table or over the let
+    itself: where the relation is declared (CTE) and where it is referenced must agree for every reader."""
+    lets = {"plain": "from t2 | select {id, k}", "take": "from t2 | select {id, k} | take 3", "sorted": "from t2 | select {id, k} | sort {id} | take 3",
+            "agg": "from t2 | group {id} (aggregate {k = max k})", "filter": "from t2 | select {id, k} | filter k > 1"}
+    readers = {
+        "append": "append t", "append_sub": "append (from t | filter id > 1)", "remove": "remove t", "intersect": "intersect t",
+        "join": "join side:left j%d = t (==id) | select {id = j%d.id, k = j%d.k}",
+        "join_sub": "join j%d = (from t | take 2) (==id) | select {id = j%d.id, k = j%d.k}",
+    }
+    out = []
+    for ln, lt in sorted(lets.items()):
+        for r1 in sorted(readers):
+            for r2 in sorted(readers):
+                for main in ("from t1 | select {id, k}", "from t"):
+                    a = readers[r1] % ((1,) * readers[r1].count("%d"))
+                    b = readers[r2] % ((2,) * readers[r2].count("%d"))
+                    src = "let t = (%s)\n%s | %s | %s" % (lt, main, a, b)
+                    LET_READER_LABELS[src] = "let:%s main:%s %s|%s" % (ln, "table" if main.startswith("from t1") else "let", r1, r2)
+                    out.append(src)
+    return out
+
+
+FEATURES_DB += let_reader_programs()
+
+
 def _shard(seed, shard, n_rel, corpus_srcs):
     rng = core.shard_rng(seed, "C07", shard)
     w = core.Worker()
@@ -137,7 +173,7 @@ def _shard(seed, shard, n_rel, corpus_srcs):
     w.db_open("d", grel.db_stmts(db))
     work = [("corpus", s, None) for s in corpus_srcs] + [("featdb", s, None) for s in (FEATURES_DB + [p for _, p in gfeat.programs() if len(p) < 3000])[shard::core.NCPU]]
     for i in range(n_rel):
-        prof = ["core", "project", "window", "sort"][i % 4]
+        prof = ["core", "project", "window", "sort", "shared"][i % 5]
         try:
             p = grel.random_program(rng, prof)
             work.append(("grel", grel.pp_program(p), p))
@@ -229,7 +265,7 @@ def _shard(seed, shard, n_rel, corpus_srcs):
                     else:
                         shape = dl + " :: " + relcheck.shape_of(prog)
                 else:
-                    shape = dl + " :: corpus[" + " ".join(t for t in ("join:", "append:", "group1(", "take ", "sort{", "window:") if re.search(r"\b" + re.escape(t.strip(":({ ")) + r"\b", src)) + "]:" + re.sub(r"\s+", " ", src)[:60]
+                    shape = corpus_shape(dl, src)
                 viols.append({"property": "C07", "symptom": sym, "shape": shape, "witness": wit, "detail": det})
     w.close()
     obs["nontrivial"] = len(obs["nontrivial"])
@@ -297,7 +333,7 @@ def replay(case):
         out = []
         for s_, d in o:
             dl = "any" if s_.startswith("bind:") else dialect
-            shape = dl + " :: " + (relcheck.shape_of(case["prog"]) if case.get("prog") else "corpus[" + " ".join(t for t in ("join:", "append:", "group1(", "take ", "sort{", "window:") if re.search(r"\b" + re.escape(t.strip(":({ ")) + r"\b", case["src"])) + "]:" + re.sub(r"\s+", " ", case["src"])[:60])
+            shape = (dl + " :: " + relcheck.shape_of(case["prog"])) if case.get("prog") else corpus_shape(dl, case["src"])
             out.append({"property": "C07", "symptom": s_, "shape": shape, "witness": case, "detail": d})
     w.close()
     return out
